@@ -22,13 +22,13 @@ POSITIONS = ('no_connection', 'pooled_idle', 'in_read_session', 'in_write_transa
 ORDERS = ('child_first', 'parent_first', 'alternating')
 
 
-def build(scratch):
+def build(scratch, fname='fork.sqlite'):
     db = orm.Database()
 
     class Row(db.Entity):
         tag = orm.Required(str, unique=True)
         who = orm.Required(str)
-    path = os.path.join(scratch, 'fork.sqlite')
+    path = os.path.join(scratch, fname)
     db.bind('sqlite', path, create_db=True, timeout=0)
     db.generate_mapping(create_tables=True)
     procstate.register_db(db)
@@ -66,7 +66,30 @@ class LineReader(object):
         return None
 
 
-def child_main(db, Row, n_sessions, go_r, rep_w, order, child_fault=False):
+def grandchild_main(db, Row, second, w):
+    """the child forked again: to the grandchild the connections the child opened are foreign"""
+    c = simdb.ctx
+    c.foreign_pid_use = []
+    out = {}
+    try:
+        with db_session:
+            out['read'] = sorted(select(r.tag for r in Row)[:])
+        with db_session:
+            Row(tag='g0', who='grandchild')
+        out['wrote'] = 'g0'
+        if second is not None:
+            db2, Row2 = second
+            with db_session:
+                Row2(tag='g0', who='grandchild')
+            out['wrote2'] = 'g0'
+    except BaseException as e:
+        out['error'] = '%s: %s' % (type(e).__name__, str(e)[:160])
+    out['foreign_pid_use'] = c.foreign_pid_use[:10]
+    _send(w, out)
+    os._exit(0)
+
+
+def child_main(db, Row, n_sessions, go_r, rep_w, order, child_fault=False, second=None, grandchild=False):
     go = LineReader(go_r) if go_r is not None else None
     """what the application's child process does after the fork: its own sessions"""
     report = {'sessions': [], 'pid_ok': True}
@@ -101,9 +124,40 @@ def child_main(db, Row, n_sessions, go_r, rep_w, order, child_fault=False):
                 ent['wrote'] = 'c%d' % i
             except BaseException as e:
                 ent['write_error'] = '%s: %s' % (type(e).__name__, str(e)[:120])
+            if second is not None:
+                # a second Database bound in the same process: its pool has inherited a connection as well
+                db2, Row2 = second
+                try:
+                    with db_session:
+                        ent['read2'] = sorted(select(r.tag for r in Row2)[:])
+                    with db_session:
+                        Row2(tag='c%d' % i, who='child')
+                    ent['wrote2'] = 'c%d' % i
+                except BaseException as e:
+                    ent['write_error2'] = '%s: %s' % (type(e).__name__, str(e)[:120])
             report['sessions'].append(ent)
             if order == 'alternating':
                 _send(rep_w, {'step': i})
+        if grandchild:
+            gr, gw = os.pipe()
+            gpid = os.fork()
+            if gpid == 0:
+                os.close(gr)
+                grandchild_main(db, Row, second, gw)
+            os.close(gw)
+            line = LineReader(gr).readline(30)
+            try:
+                os.waitpid(gpid, 0)
+            except ChildProcessError:
+                pass
+            report['grandchild'] = json.loads(line) if line else {'error': 'no report from the grandchild'}
+            # the child goes on using its own connection after it forked
+            try:
+                with db_session:
+                    Row(tag='c_after_grandchild', who='child')
+                report['wrote_after_grandchild'] = True
+            except BaseException as e:
+                report['after_grandchild_error'] = '%s: %s' % (type(e).__name__, str(e)[:120])
     except BaseException:
         report['crash'] = traceback.format_exc()[-1500:]
     report['foreign_pid_use'] = c.foreign_pid_use[:10]
@@ -119,13 +173,22 @@ def run_case(case, scratch):
     order = case.get('order', 'child_first')
     n_child = int(case.get('child_sessions', 2))
     db, Row, path = build(scratch)
+    second = None
+    if case.get('second_db'):
+        db2, Row2, path2 = build(scratch, 'fork2.sqlite')
+        second = (db2, Row2)
     c.phase = 'setup'
     with db_session:
         Row(tag='seed0', who='setup')
         Row(tag='seed1', who='setup')
+    if second is not None:
+        with db_session:
+            Row2(tag='seed0', who='setup')
     violations = []
-    shape = 'position=%s|order=%s%s%s' % (position, order, '|thread' if case.get('thread') else '',
-                                          '|child-connect-fault' if case.get('child_fault') else '')
+    shape = 'position=%s|order=%s%s%s%s%s' % (position, order, '|thread' if case.get('thread') else '',
+                                              '|child-connect-fault' if case.get('child_fault') else '',
+                                              '|second-db' if second is not None else '',
+                                              '|grandchild' if case.get('grandchild') else '')
 
     def viol(sub, detail):
         key = 'C36|%s|%s' % (sub, shape)
@@ -139,13 +202,16 @@ def run_case(case, scratch):
         go_r, go_w = os.pipe()
         rep_r, rep_w = os.pipe()
         parent_rows = []
+        parent_rows2 = []
+        state['parent_rows2'] = parent_rows2
 
         def do_fork():
             pid = os.fork()
             if pid == 0:
                 os.close(go_w)
                 os.close(rep_r)
-                child_main(db, Row, n_child, go_r, rep_w, order, bool(case.get('child_fault')))
+                child_main(db, Row, n_child, go_r, rep_w, order, bool(case.get('child_fault')), second,
+                           bool(case.get('grandchild')))
             os.close(go_r)
             os.close(rep_w)
             return pid
@@ -184,11 +250,19 @@ def run_case(case, scratch):
                 with db_session:
                     Row(tag=tagbase, who='parent')
                 parent_rows.append(tagbase)
+                if second is not None:
+                    with db_session:
+                        Row2(tag=tagbase, who='parent')
+                    parent_rows2.append(tagbase)
             except BaseException as e:
                 out['error'] = '%s: %s' % (type(e).__name__, str(e)[:160])
             return out
 
         rep = None
+        if second is not None and position != 'no_connection':
+            # the second database has a pooled connection of this thread when the process forks
+            with db_session:
+                select(r for r in Row2)[:]
         if position == 'no_connection':
             db.disconnect()
             pid = do_fork()
@@ -248,6 +322,8 @@ def run_case(case, scratch):
         state['parent_rows'] = parent_rows
         try:
             db.disconnect()
+            if second is not None:
+                second[0].disconnect()
         except BaseException:
             pass
 
@@ -290,9 +366,31 @@ def run_case(case, scratch):
                 'probes': {'fork_inside_open_session_leaked': 1},
                 'sample': {'position': position, 'order': order, 'child_sessions': rep['sessions']}}
     child_wrote = []
+    child_wrote2 = []
+    gc = rep.get('grandchild')
+    if gc is not None:
+        if gc.get('foreign_pid_use'):
+            u = gc['foreign_pid_use'][0]
+            viol('grandchild-used-child-connection',
+                 'the grandchild issued %s %r on connection #%d, which the child (its parent) opened'
+                 % (u['kind'], u.get('sql'), u['conn']))
+        if 'error' in gc and 'database is locked' not in gc['error']:
+            viol('grandchild-session-failed', 'grandchild: %s' % gc['error'])
+        if 'wrote' in gc:
+            child_wrote.append(gc['wrote'])
+        if 'wrote2' in gc:
+            child_wrote2.append(gc['wrote2'])
+        if rep.get('wrote_after_grandchild'):
+            child_wrote.append('c_after_grandchild')
+        elif 'database is locked' not in rep.get('after_grandchild_error', 'database is locked'):
+            viol('child-cannot-continue', 'child session after it forked failed: %s' % rep['after_grandchild_error'])
     for i, s in enumerate(rep['sessions']):
         if 'wrote' in s:
             child_wrote.append(s['wrote'])
+        if 'wrote2' in s:
+            child_wrote2.append(s['wrote2'])
+        if 'write_error2' in s and 'database is locked' not in s['write_error2']:
+            viol('child-session-failed', 'child session %d on the second database: %s' % (i, s['write_error2']))
         for k in ('read_error', 'write_error'):
             if k in s and 'database is locked' not in s[k]:
                 if case.get('child_fault') and 'unable to open database file' in s[k]:
@@ -313,10 +411,21 @@ def run_case(case, scratch):
     if got != exp:
         viol('rows-lost-or-unexpected', 'rows %r, expected %r (parent committed %r, child reported %r)'
              % (got, exp, state['parent_rows'], child_wrote))
-    digest = hsh([shape, got, [sorted(s.keys()) for s in rep['sessions']], bool(rep['foreign_pid_use'])])
+    got2 = None
+    if second is not None:
+        con = simdb.raw_connect(os.path.join(scratch, 'fork2.sqlite'))
+        try:
+            got2 = sorted(x[0] for x in con.execute('select tag from Row').fetchall())
+        finally:
+            con.close()
+        exp2 = sorted(set(['seed0'] + state['parent_rows2'] + child_wrote2))
+        if got2 != exp2:
+            viol('rows-lost-or-unexpected', 'second database: rows %r, expected %r' % (got2, exp2))
+    digest = hsh([shape, got, got2, [sorted(s.keys()) for s in rep['sessions']], bool(rep['foreign_pid_use'])])
     return {
         'violations': violations, 'fired': [], 'digest': digest,
-        'sig': hsh([position, order, n_child, bool(case.get('thread'))]),
+        'sig': hsh([position, order, n_child, bool(case.get('thread')), bool(case.get('second_db')),
+                    bool(case.get('grandchild')), bool(case.get('child_fault'))]),
         'nontrivial': True,
         'probes': {'child_opened_own_connection': int(rep['new_connections'] > 0),
                    'child_sessions_ok': sum(1 for s in rep['sessions'] if 'wrote' in s),
